@@ -68,7 +68,8 @@ class RawX12File(object):
             (line, self.buffer) = self.buffer.split(self.seg_term, 1)
             line = line.lstrip('\n\r')
             if line == '':
-                break
+                # Empty segment, not the end of the data
+                continue
             yield(line)
 
     def get_term(self):
